@@ -600,6 +600,64 @@ CLAUSES.append(
                 "modified by the caller afterwards, repeated load_builtin / load_kbmag_file of the same file with edits in between, deepcopies; after "
                 "every step every automaton is compared with its own set model and every caller dictionary / start list with its own history"))
 
+# ------------------------------------------------------------------ free_automaton over every spelling of a generating set
+def gen_free(rng, n):
+    out = [{"gens": list(g), "pack": pk} for g in U.FREE_SETS for pk in U.free_packs(g)]
+    for a in out[:n]:
+        yield a
+    for _ in range(max(0, n - len(out))):
+        i = U.rand_free_init(rng)
+        yield {"gens": i["gens"], "pack": i["pack"]}
+
+
+def run_free(inp):
+    """views = set model of the free-group automaton; language = freely reduced words over S u S^-1 (brute force on
+    strings, independent of the set model): the inverse of a name is the same name in the other case"""
+    import itertools
+    gens = list(inp["gens"])
+    A, ref = U.build({"route": "free", "gens": gens, "pack": inp["pack"]})
+    vw = U.views(A)
+    pb = U.coherence_problems(vw, ref)
+    if list(A.start_vertices) != [""]:
+        pb.append("start-list")
+    swap = lambda g: g.swapcase() if (g.islower() or g.isupper()) else g.lower()      # noqa: E731
+    alphabet = []
+    for g in gens + [swap(g) for g in gens]:
+        if g not in alphabet:
+            alphabet.append(g)
+    if {l for (_, l, _) in ref.E} != set(alphabet):
+        pb.append("reference-alphabet")          # the two independent descriptions of the expected automaton disagree
+    bad = []
+    maxlen = 3 if len(alphabet) <= 6 else 2
+    for k in range(maxlen + 1):
+        for w in itertools.product(alphabet, repeat=k):
+            reduced = all(swap(w[i + 1]) != w[i] for i in range(k - 1))
+            if bool(A.accepts(list(w))) != reduced:
+                bad.append(list(w))
+    if bad:
+        pb.append("language")
+    if pb:
+        return {"problems": pb, "views": vw, "words": bad[:5], "alphabet": alphabet}
+    return {"ok": True}
+
+
+def judge_free(inp, obs, lr):
+    if obs.get("ok"):
+        return None
+    if "exc" in obs:
+        return {"expected": "free_automaton accepts every iterable of generator names", "observed": obs, "tags": {"exc": obs["exc"]}}
+    return {"expected": "free_automaton(S): states '' and S u S^-1 (inverse = other case), edge g -h-> h unless h is the inverse of g, "
+                        "in all three views; accepted words = freely reduced words",
+            "observed": obs, "tags": {"problems": "+".join(obs["problems"])}}
+
+
+CLAUSES.append(
+    Clause("free_oracle", "oracle", gen_free, U.bounded(run_free), judge_free,
+           site="fsa.free_automaton", budget={"quick": 150, "thorough": 1500},
+           what="free_automaton over generating sets in every case pattern (lower, upper, mixed, both cases listed, multi-character names) "
+                "and every iterable kind: the three views equal the set model of the free-group automaton and the accepted words up to "
+                "length 3 are exactly the freely reduced words over S u S^-1 (brute force on strings)"))
+
 from props import _defence as DF  # noqa: E402
 CLAUSES.append(
     Clause("defence_oracle", "oracle", DF.gen_views, U.bounded(DF.run_defence), DF.judge_defence,
